@@ -150,7 +150,8 @@ def magic_to_dict(kwargs, separator="_") -> dict:
         else:
             val = {separator.join(keys[1:]): v}
             if keys[0] in new_kwargs and isinstance(new_kwargs[keys[0]], dict):
-                new_kwargs[keys[0]].update(val)
+                # merge into a new dict, nested dictionaries of the caller stay untouched
+                new_kwargs[keys[0]] = {**new_kwargs[keys[0]], **val}
             else:
                 new_kwargs[keys[0]] = val
     for k, v in new_kwargs.items():
